@@ -4,6 +4,7 @@ import (
 	"encoding/hex"
 	"encoding/json"
 	"fmt"
+	"math"
 	"net"
 	"net/http"
 	"os"
@@ -572,7 +573,10 @@ type upResp struct {
 	Status int
 	CT     string
 	Body   []byte
-	Hijack string // "", "close-midway", "wrong-length"
+	Hijack string // "", "close-midway", "wrong-length", "declared-length"
+	// Declared: the Content-Length a "declared-length" response announces (the body is sent, then the
+	// connection closes)
+	Declared int64
 }
 
 func c11clients(c *Ctx, fl *featLab) {
@@ -652,12 +656,25 @@ func c11clients(c *Ctx, fl *featLab) {
 		}
 		rs = append(rs, upResp{Class: "close-midway", Status: 200, CT: "application/json", Body: valid, Hijack: "close-midway"},
 			upResp{Class: "close-before-response", Status: 200, Hijack: "close-now"}, upResp{Class: "wrong-content-length", Status: 200, CT: "application/json", Body: valid, Hijack: "wrong-length"})
+		// declared lengths at the edges of what a length can be: the reader may size buffers from them
+		for _, dl := range []struct {
+			c string
+			n int64
+		}{{"max-int64", math.MaxInt64}, {"max-int64-minus-1", math.MaxInt64 - 1}, {"max-int64-minus-511", math.MaxInt64 - 511}, {"max-int64-minus-512", math.MaxInt64 - 512}, {"max-int64-minus-4096", math.MaxInt64 - 4096},
+			{"2^62", 1 << 62}, {"1TiB", 1 << 40}, {"2^32+1", 1<<32 + 1}, {"2^31", 1 << 31}, {"2^31-1", 1<<31 - 1}, {"64MiB", 64 << 20}, {"zero-with-body", 0}, {"one-less-than-body", int64(len(valid)) - 1}} {
+			for _, st := range []int{200, 400, 500} {
+				if !c.Thorough() && st == 500 {
+					continue
+				}
+				rs = append(rs, upResp{Class: fmt.Sprintf("declared-content-length/%s/st%d", dl.c, st), Status: st, CT: "application/json", Body: valid, Hijack: "declared-length", Declared: dl.n})
+			}
+		}
 		for _, r := range rs {
 			r := r
 			up.mu.Lock()
 			up.next = func(w http.ResponseWriter, req *http.Request) {
 				switch r.Hijack {
-				case "close-now", "close-midway", "wrong-length":
+				case "close-now", "close-midway", "wrong-length", "declared-length":
 					hj, ok := w.(http.Hijacker)
 					if !ok {
 						return
@@ -674,6 +691,10 @@ func c11clients(c *Ctx, fl *featLab) {
 						bw.Flush()
 					case "wrong-length":
 						fmt.Fprintf(bw, "HTTP/1.1 200 OK\r\nContent-Type: application/json\r\nContent-Length: %d\r\n\r\n", len(r.Body)+50)
+						bw.Write(r.Body)
+						bw.Flush()
+					case "declared-length":
+						fmt.Fprintf(bw, "HTTP/1.1 %d %s\r\nContent-Type: %s\r\nContent-Length: %d\r\nConnection: close\r\n\r\n", r.Status, http.StatusText(r.Status), r.CT, r.Declared)
 						bw.Write(r.Body)
 						bw.Flush()
 					}
